@@ -13,6 +13,7 @@ import (
 	"strconv"
 	"strings"
 	"sync"
+	"sync/atomic"
 	"time"
 
 	"github.com/bolkedebruin/rdpgw/cmd/rdpgw/identity"
@@ -901,8 +902,12 @@ func runC07(r *Run) {
 		rd := setupC07Round(spec, gws, idp, -1)
 		r.Breadcrumb(spec.String())
 		if spec.stall {
-			// as on a small machine: the gateway's goroutines share two processors
-			prev := runtime.GOMAXPROCS(2)
+			// as on a small machine: the gateway's goroutines share two processors, or one
+			procs := 2
+			if round%12 == 9 {
+				procs = 1
+			}
+			prev := runtime.GOMAXPROCS(procs)
 			rd.run()
 			runtime.GOMAXPROCS(prev)
 		} else {
@@ -1007,9 +1012,9 @@ func runC07(r *Run) {
 			break
 		}
 	}
+	c07BlockedWriter(r)
 }
 
-// c07Short abbreviates long hex fields of a canonical observation (length and a digest are kept).
 func c07Short(s string) string {
 	fs := strings.Fields(s)
 	for i, f := range fs {
@@ -1097,4 +1102,164 @@ func runC07Alone(r *Run) {
 	rd.closeAll()
 	r.Count("alone")
 	r.Count("alone2")
+}
+
+// c07BlockedWriter: one tunnel whose client does not read (small receive buffer, host streaming) until the
+// gateway's write towards it is blocked with a packet half handed to the socket; meanwhile other tunnels
+// relay thousands of packets of their own; then the first client reads. Every payload byte it gets must be
+// its own host's. Run with the gateway's goroutines on one processor and on two.
+func c07BlockedWriter(r *Run) {
+	for _, procs := range []int{1, 2} {
+		func() {
+			prev := runtime.GOMAXPROCS(procs)
+			defer runtime.GOMAXPROCS(prev)
+			gws := startGateway(&protocol.Gateway{})
+			defer gws.close()
+			hostA := newHostListener()
+			defer hostA.close()
+			open := func(kind string, host *hostListener, rcvbuf int) (gwClient, *legacyClient, *wsClient) {
+				_, port := splitHostPort(host.addr)
+				connID := "{" + randHex(8) + "}"
+				var cl gwClient
+				var lc *legacyClient
+				var wc *wsClient
+				if kind == "ws" {
+					w, err := dialWS(gws.addr, connID, "")
+					if err != nil {
+						return nil, nil, nil
+					}
+					cl, wc = w, w
+				} else {
+					l, err := dialLegacy(gws.addr, connID, "")
+					if err != nil {
+						return nil, nil, nil
+					}
+					if tc, ok := l.out.(*net.TCPConn); ok && rcvbuf > 0 {
+						tc.SetReadBuffer(rcvbuf)
+					}
+					cl, lc = l, l
+				}
+				for _, pk := range [][]byte{mkPacket(tHandshake, bodyHandshake(1, 0, 0, 0)), mkPacket(tTunnel, bodyTunnelCreate(0, 0, nil)),
+					mkPacket(tAuth, bodyTunnelAuth(append(utf16le("PC"), 0, 0))), mkPacket(tChannel, bodyChannel(port, append(utf16le("127.0.0.1"), 0, 0)))} {
+					cl.send(pk)
+				}
+				return cl, lc, wc
+			}
+			// A: legacy, not reading
+			clA, lA, _ := open("legacy", hostA, 4096)
+			if clA == nil || !waitFor(4*time.Second, func() bool { hostA.poll(); return len(hostA.conns) > 0 }) {
+				r.Inconclusive()
+				return
+			}
+			defer clA.close()
+			hcA := hostA.conns[0]
+			stop := make(chan struct{})
+			blocked := make(chan struct{})
+			sentA := int64(0)
+			var wg sync.WaitGroup
+			wg.Add(1)
+			go func() {
+				defer wg.Done()
+				chunk := bytes.Repeat([]byte{'A'}, 4000)
+				for {
+					select {
+					case <-stop:
+						return
+					default:
+					}
+					hcA.c.SetWriteDeadline(time.Now().Add(100 * time.Millisecond))
+					n, err := hcA.c.Write(chunk)
+					atomic.AddInt64(&sentA, int64(n))
+					if err != nil {
+						if !isTimeout(err) {
+							return
+						}
+						select {
+						case <-blocked:
+						default:
+							close(blocked)
+						}
+					}
+				}
+			}()
+			select {
+			case <-blocked:
+			case <-time.After(8 * time.Second):
+			}
+			// B1..B3: busy tunnels
+			foreign := ""
+			var bw sync.WaitGroup
+			for k := 0; k < 3; k++ {
+				bw.Add(1)
+				go func(k int) {
+					defer bw.Done()
+					hostB := newHostListener()
+					defer hostB.close()
+					kind := []string{"ws", "legacy", "legacy"}[k]
+					clB, lB, wB := open(kind, hostB, 0)
+					if clB == nil || !waitFor(4*time.Second, func() bool { hostB.poll(); return len(hostB.conns) > 0 }) {
+						return
+					}
+					defer clB.close()
+					var pr *packetReader
+					if wB != nil {
+						pr = readWS(wB, 10*time.Second)
+					} else {
+						pr = readLegacy(lB, 10*time.Second)
+					}
+					hc := hostB.conns[0]
+					chunk := bytes.Repeat([]byte{'B'}, 1000+k)
+					total := 0
+					for i := 0; i < 1500; i++ {
+						hc.c.Write(chunk)
+						total += len(chunk)
+					}
+					waitFor(8*time.Second, func() bool { pk, _ := pr.snapshot(); pl, _ := dataPayloads(pk); return len(pl) >= total })
+					pk, _ := pr.snapshot()
+					pl, bad := dataPayloads(pk)
+					if bad != "" {
+						foreign = fmt.Sprintf("busy tunnel %d (%s): %s", k, kind, bad)
+					}
+					for _, b := range pl {
+						if b != 'B' {
+							foreign = fmt.Sprintf("busy tunnel %d (%s) received the byte %q, which its host never sent", k, kind, b)
+							break
+						}
+					}
+				}(k)
+			}
+			bw.Wait()
+			close(stop)
+			wg.Wait()
+			// now A reads
+			if tc, ok := lA.out.(*net.TCPConn); ok {
+				tc.SetReadBuffer(1 << 20)
+			}
+			prA := readLegacy(lA, 10*time.Second)
+			want := int(atomic.LoadInt64(&sentA))
+			waitFor(15*time.Second, func() bool { pk, _ := prA.snapshot(); pl, _ := dataPayloads(pk); return len(pl) >= want })
+			pk, _ := prA.snapshot()
+			pl, bad := dataPayloads(pk)
+			r.Count(fmt.Sprintf("blocked-writer:%d", procs))
+			r.Dist("blocked-writer")
+			rep := fmt.Sprintf("GOMAXPROCS=%d; tunnel A (legacy, client receive buffer 4096, not reading) with its host streaming 'A' until the host's own writes block (%d bytes accepted); then three tunnels (ws, legacy, legacy) relay 1500 payloads of 'B' each and their clients read them; then A's client reads\nA's client received %d payload bytes in %d packets\n", procs, want, len(pl), len(pk))
+			if bad != "" {
+				r.Violation("c07-client-foreign-bytes", "the client of a tunnel received a packet stream that is not its own host's (malformed after another tunnel's traffic): "+bad, rep)
+				return
+			}
+			for i, b := range pl {
+				if b != 'A' {
+					r.Violation("c07-client-foreign-bytes", fmt.Sprintf("the client of tunnel A received bytes produced by the host of another tunnel (payload byte %d is %q)", i, b), rep+fmt.Sprintf("around the first foreign byte: %q\n", pl[max0(i-20):min(len(pl), i+40)]))
+					return
+				}
+			}
+			if foreign != "" {
+				r.Violation("c07-client-foreign-bytes", "the client of a tunnel received bytes produced by the host of another tunnel: "+foreign, rep)
+				return
+			}
+			if len(pl) < want {
+				r.Note(fmt.Sprintf("blocked-writer scenario: A's client got %d of %d bytes within the wait (no foreign byte among them)", len(pl), want))
+			}
+		}()
+	}
 }
